@@ -16,6 +16,8 @@ POSITIONS = ["top", "subquery-from", "subquery-in", "setop", "cte", "select-item
 
 
 def describe(v):
+    if v is None:
+        return {"k": "null"}
     if isinstance(v, bool):
         return {"k": "bool", "v": v}
     if isinstance(v, int):
@@ -120,7 +122,7 @@ def run(tier: str) -> int:
             for pos in (POSITIONS if h["kind"] == "select" else ["top"]):
                 if h["kind"] == "upsert" and not any(c["m"] in ("do_update", "do_nothing") for c in h["hist"]):
                     continue  # ON CONFLICT without a handler is rejected at render time (C14)
-                if d == "mssql" and '"arr"' in json.dumps(h["hist"]):
+                if d == "mssql" and ('"arr"' in json.dumps(h["hist"]) or '"arrn"' in json.dumps(h["hist"])):
                     continue  # [..] is a bracket-quoted identifier in T-SQL, not an array literal
                 env = execb.Env(Q)
                 q, excs = env.run(h["hist"])
